@@ -97,7 +97,13 @@ def feq(a, b, tol=1e-9):
 
 
 def check_tree(ctx, fl, e, c, where):
-    want_pf = " ".join(c["postfix"])
+    # names are case-sensitive and a variable may be called like a function in other letters: every second formula calls the engine
+    # variable `Pi` and the term's own variable `Max` (the registered names are `pi` and `max`)
+    check_tree.n = getattr(check_tree, "n", 0) + 1
+    ren = {"a": "Pi", "c": "Max"} if check_tree.n % 2 else {}
+    AN, CN = ren.get("a", "a"), ren.get("c", "c")
+    e.input_variables[0].name = AN
+    want_pf = " ".join(ren.get(t, t) for t in c["postfix"])
     vals = []
     for v in c["values"]:
         try:
@@ -108,12 +114,13 @@ def check_tree(ctx, fl, e, c, where):
     tag = ("relational" if any(f in json.dumps(c["tree"]) for f in ('"eq"', '"neq"', '"ge"', '"le"', '"gt"', '"lt"')) else
            "min-max" if any(f in json.dumps(c["tree"]) for f in ('"min"', '"max"')) else "other")
     for st, toks in enumerate(c["shown"]):
+        toks = [ren.get(t, t) for t in toks]
         for text in {" ".join(toks), unspaced(toks)}:
             case = {"formula": text, "tree": c["tree"]}
             ctx.count()
             try:
                 f = fl.Function.create("f", text, e)
-                f.variables = {"c": 0.0}
+                f.variables = {CN: 0.0}
             except Exception as ex:
                 ctx.violation(f"Function.create/rejects-well-formed/{type(ex).__name__}", case, "a loaded formula", f"{type(ex).__name__}: {ex}", note=f"'{text}'")
                 continue
@@ -125,7 +132,7 @@ def check_tree(ctx, fl, e, c, where):
                 if want is None:
                     continue
                 e.input_variables[0].value = env["a"]
-                f.variables = {"c": env["c"]}
+                f.variables = {CN: env["c"]}
                 try:
                     got = f.membership(env["x"])
                     gotf = float(np.asarray(got, dtype=float))
@@ -141,12 +148,12 @@ def check_tree(ctx, fl, e, c, where):
                 av = np.array([env["a"] for env in ENVS])
                 cv = np.array([env["c"] for env in ENVS])
                 e.input_variables[0].value = av
-                f.variables = {"c": cv}
+                f.variables = {CN: cv}
                 keep = (xs.copy(), np.array(e.input_variables[0].value, copy=True), cv.copy())
                 ctx.count()
                 try:
                     got = np.broadcast_to(np.asarray(f.membership(xs), dtype=float), xs.shape)
-                    now = (xs, np.asarray(e.input_variables[0].value), f.variables["c"])
+                    now = (xs, np.asarray(e.input_variables[0].value), f.variables[CN])
                     if not all(np.array_equal(k, n, equal_nan=True) for k, n in zip(keep, now)):
                         ctx.violation("Function.membership/array-operands-modified", case, [k.tolist() for k in keep], [np.asarray(n).tolist() for n in now],
                                       note=f"evaluating '{text}' changed the values of its own variables")
@@ -155,6 +162,7 @@ def check_tree(ctx, fl, e, c, where):
                         ctx.violation(f"Function.membership/array-value/{tag}", case, vals, got.tolist(), note=f"'{text}' on arrays differs from the documented elementwise meaning")
                 except Exception as ex:
                     ctx.violation(f"Function.membership/array-raises-{type(ex).__name__}/{tag}", case, vals, f"{type(ex).__name__}: {ex}", note=f"'{text}' cannot take array operands")
+    e.input_variables[0].name = "a"
 
 
 def scope_leg(ctx, fl):
